@@ -108,8 +108,8 @@ func (d decl) addr(port string, tlsOn bool) string {
 var (
 	hostsQuick    = []string{"a.test", "b.a.test", "*.a.test", "*.*.test", "*.test", "127.0.0.1", "[::1]", "0.0.0.0", ""}
 	hostsThorough = []string{"[::]", "*.b.a.test", "localhost"}
-	pathsQuick    = []string{"", "/", "/x", "/x/", "/x/y", "/xy", "/\u00e9"}
-	pathsThorough = []string{"/X"}
+	pathsQuick    = []string{"", "/", "/x", "/x/", "/x/y", "/xy", "/\u00e9", "/X"}
+	pathsThorough = []string{"/X/y"}
 )
 
 func conflict(a, b siteID) (dup bool, root bool) {
